@@ -1,10 +1,18 @@
-(* Props/C04.v — ARPA address codec.  PARTIAL: the encoder's specification, the
-   digit-level round trips (finite sweeps) and executable examples are proved;
-   the whole-string theorems C04_roundtrip / C04_language (all addresses, all
-   strings) are stated in DESIGN.md and are work in progress; until then those
-   clauses rest on the correspondence of the L1 model with the implementation. *)
+(* Props/C04.v — ARPA address codec: the encoder's specification, the round trip
+   for every IPv4 / IPv6 address in every spelling, and the accepted language of
+   the decoder for every byte string.
+
+   Reading of the property fixed here: the canonical name of a 4-byte address is
+   its in-addr.arpa name (canon4), of a 16-byte address its ip6.arpa nibble name
+   (canon6).  IPToReversedAddr maps an IPv4-mapped 16-byte slice to the IPv4 name
+   (C04_encode), which decodes to the 4-byte address (addr_of); the nibble name
+   of an IPv4-mapped address decodes to the 16-byte address it spells (RFC 3596).
+
+   idna.ToASCII: the round-trip theorems take its answer to be the name itself
+   (true of every canonical ARPA name: ASCII, no xn-- label; checked per run by
+   the correspondence); the language theorem assumes nothing about it. *)
 From Verif Require Import Base.GoPrim Base.Strings Gen.Consts Gen.BytePreds Std.Netip Std.Net
-  Model.Addr Model.Ip Model.Reversed Proofs.ReversedBasics.
+  Model.Addr Model.Ip Model.Reversed Proofs.ReversedBasics Proofs.ReversedRoundtrip Proofs.ReversedLanguage.
 
 Theorem C04_regenerated :
   suffix4_nodot = [105; 110; 45; 97; 100; 100; 114; 46; 97; 114; 112; 97] /\
@@ -35,6 +43,39 @@ Proof. exact hexdigit_of_from_hex. Qed.
 Theorem C04_octet_roundtrip : forall v, 0 <= v < 256 -> parse_uint8 (itoa v) = Some v.
 Proof. exact itoa_uint8. Qed.
 
+(* round trip, IPv4: every spelling whose lower-cased, dot-trimmed form is the canonical name *)
+Theorem C04_roundtrip4 : forall s a b c d, byte a -> byte b -> byte c -> byte d ->
+  to_lower_ascii (trim_dot s) = canon4 [a; b; c; d] ->
+  ip_from_reversed_addr s (Some (trim_dot s)) = Ret (Ok [a; b; c; d]).
+Proof. exact roundtrip4. Qed.
+
+(* round trip, IPv6: all 2^128 addresses *)
+Theorem C04_roundtrip6 : forall s v, Forall byte v -> length v = 16%nat ->
+  to_lower_ascii (trim_dot s) = canon6 v ->
+  ip_from_reversed_addr s (Some (trim_dot s)) = Ret (Ok v).
+Proof. exact roundtrip6. Qed.
+
+(* encoder then decoder, any letter case, with or without one trailing dot *)
+Theorem C04_roundtrip : forall ip n s0, Forall byte ip -> ip_to_reversed_addr ip = Ok n -> to_lower_ascii s0 = n ->
+  ip_from_reversed_addr s0 (Some s0) = Ret (Ok (addr_of ip)) /\
+  ip_from_reversed_addr (s0 ++ [46]) (Some s0) = Ret (Ok (addr_of ip)).
+Proof. exact codec_spellings. Qed.
+
+Theorem C04_injective : forall ip1 ip2 n, Forall byte ip1 -> Forall byte ip2 ->
+  ip_to_reversed_addr ip1 = Ok n -> ip_to_reversed_addr ip2 = Ok n -> addr_of ip1 = addr_of ip2.
+Proof. exact codec_injective. Qed.
+
+(* accepted language: for every byte string and every ToASCII answer *)
+Theorem C04_language : forall s a v, Forall byte s -> ip_from_reversed_addr s a = Ret (Ok v) ->
+  (exists p q r t, v = [p; q; r; t] /\ Forall byte v /\ to_lower_ascii (trim_dot s) = canon4 v) \/
+  (length v = 16%nat /\ Forall byte v /\ to_lower_ascii (trim_dot s) = canon6 v).
+Proof. exact language. Qed.
+
+(* netip.ParseAddr's dotted-quad branch accepts exactly the canonical decimal spelling *)
+Theorem C04_parse_ipv4_canonical : forall s r, parse_ipv4 s = Some r ->
+  exists a b c d, r = [a; b; c; d] /\ byte a /\ byte b /\ byte c /\ byte d /\ s = dotted4 a b c d.
+Proof. exact parse_ipv4_inv. Qed.
+
 (* executable instances of the round trip and of the rejected look-alikes *)
 Example C04_examples :
   let name4 := [52;46;51;46;50;46;49;46;105;110;45;97;100;100;114;46;97;114;112;97] in          (* 4.3.2.1.in-addr.arpa *)
@@ -44,7 +85,10 @@ Example C04_examples :
   ip_from_reversed_addr (name4 ++ [46]) (Some name4) = Ret (Ok [1;2;3;4]) /\
   ip_from_reversed_addr (map (fun c => if is_lower c then c - 32 else c) name4) (Some name4) = Ret (Ok [1;2;3;4]) /\
   (* 04.3.2.1.in-addr.arpa: leading zero *)
-  ip_from_reversed_addr (48 :: name4) (Some (48 :: name4)) = Ret (Err (EAddr EPlainErr)).
+  ip_from_reversed_addr (48 :: name4) (Some (48 :: name4)) = Ret (Err (EAddr EPlainErr)) /\
+  (* the premises of the theorems are met: a 16-byte address and its nibble name *)
+  (let v6 := [32;1;13;184;0;0;0;0;0;0;0;0;0;0;0;1] in
+   ip_to_reversed_addr v6 = Ok (canon6 v6) /\ ip_from_reversed_addr (canon6 v6) (Some (canon6 v6)) = Ret (Ok v6)).
 Proof. vm_compute. repeat split; reflexivity. Qed.
 
 Print Assumptions C04_regenerated.
@@ -52,3 +96,9 @@ Print Assumptions C04_encode.
 Print Assumptions C04_nibble_roundtrip.
 Print Assumptions C04_nibble_language.
 Print Assumptions C04_octet_roundtrip.
+Print Assumptions C04_roundtrip4.
+Print Assumptions C04_roundtrip6.
+Print Assumptions C04_roundtrip.
+Print Assumptions C04_injective.
+Print Assumptions C04_language.
+Print Assumptions C04_parse_ipv4_canonical.
